@@ -420,6 +420,37 @@ fn renderings_leg(acc: &mut Acc) {
     let mut lay = world::layout(vec![world::step("s", 1, &[keys::get("ed1")])], vec![], &[keys::get("ed1")], world::far_future());
     lay.readme = "line one\nline two\ttabbed".into();
     metas.push(("layout/readme with control characters".to_string(), MetadataWrapper::Layout(lay)));
+    {
+        // strings that begin (and end) with the two characters the signing form escapes
+        let mut l = world::link("step", world::arts(&[("\"m\"", 1)]), world::arts(&[("\\p\\", 2)]));
+        l.env = Some([("\\\\server\\share".to_string(), "\"v\"".to_string())].into_iter().collect());
+        l.byproducts = in_toto::models::byproducts::ByProducts::new().set_return_value(0).set_stdout("\"quoted\" first".to_string()).set_stderr("\\".to_string());
+        l.command = vec!["\"".to_string(), "\\".to_string(), "a\"b\\c".to_string()].into();
+        metas.push(("link/strings that begin with a quote or a backslash".to_string(), MetadataWrapper::Link(l)));
+    }
+    // the content's canonical form by the independent reference encoder: a signature over it is a
+    // valid signature over the block's canonical content and must count
+    for (mname, meta) in &metas {
+        let Ok(reference) = serde_json::to_value(meta).map_err(|e| e.to_string()).and_then(|v| crate::olpc::encode(&v)) else { continue };
+        for kname in ["ed1", "ec1", "rsa256a"] {
+            let k = keys::get(kname);
+            let Guard::Done(Ok(sig)) = guard(|| k.private.sign(&reference)) else { continue };
+            acc.evaluations += 1;
+            acc.nontrivial += 1;
+            acc.states += 1;
+            let b = Metablock { signatures: vec![sig], metadata: meta.clone() };
+            let w = || json!({"kind": "other-rendering", "block": mname, "rendering": "reference canonical form", "key": kname});
+            match guard(|| b.verify(1, [k.public()])) {
+                Guard::Done(Ok(m)) if m == *meta => acc.outcome("reference-form-counted"),
+                Guard::Done(Ok(_)) => acc.violation("returned-content-differs", "verify returned other content than the block's", w),
+                Guard::Done(Err(_)) => {
+                    acc.outcome("reference-form-not-counted");
+                    acc.violation("rejected:signature-over-the-canonical-content", &format!("{mname}: a valid signature by {kname} over the block's canonical content (reference encoder) did not meet threshold 1"), w);
+                }
+                Guard::Panicked(l, m) => acc.violation(&format!("panic:{l}"), &m, w),
+            }
+        }
+    }
     for (mname, meta) in &metas {
         let Ok(signable) = meta.to_signable_bytes() else { continue };
         let mut with_lf = signable.clone();
@@ -556,7 +587,7 @@ pub fn run(tier: Tier) -> i32 {
     renderings_leg(&mut acc);
     iterator_kinds_leg(&mut acc);
     bounds.push("kinds of key collection: 6 signature lists x 5 authorised sequences x thresholds 0..4 x {filtered, chained, map values, flat_map, generator} against the vector".to_string());
-    bounds.push("other renderings: 4 blocks x 3 key types x 4 renderings of the same content (escaped canonical form, serde compact / pretty, signing form + LF)".to_string());
+    bounds.push("the canonical content by the reference encoder (5 blocks, incl. strings beginning with a quote or a backslash, x 3 key types: must count); other renderings: 5 blocks x 3 key types x 4 renderings of the same content (escaped canonical form, serde compact / pretty, signing form + LF)".to_string());
     bounds.push("near twins: 3 links + 1 layout x every leaf of the signed part x every small edit that yields another readable block, both directions".to_string());
     c.acc = acc;
     c.rule = "state = signature list (sequence over {valid by A/B/C, garbage labelled A, B's signature relabelled A, second valid signature by A, empty labelled A, A's / B's valid signature under an unknown key id, A's signature over other content, A's valid signature under an id sharing A's first 8 characters / under A's id in upper case}); transition = append one entry; each state is verified for every authorised sequence over {A,B,C} of length <= 3 (with duplicates, and empty) x thresholds {0,1,2,3,u32::MAX} x every iteration order of the internal signature map; two more families have ONE key loaded twice (A, A2: Ed25519 with / without a hash-algorithm list; one RSA modulus declared PSS-SHA256 / PSS-SHA512) next to an unrelated B, with each guise's signature under its own and under the other guise's id: distinct keys are counted by key material; one family has authorised keys whose declared scheme does not fit their material (Ed25519 material declared RSA-PSS) or is unknown: nothing attributed to them counts; non-trivial = list with an invalid entry, a repeated key id or one key under two ids".into();
